@@ -517,6 +517,61 @@ Proof.
   apply Z.leb_gt. lia.
 Qed.
 
+Lemma is_running_answer_w w o : Inv w -> has_obj w o = true ->
+  outcome_of w (EC (IsRunning o)) = Val (RBool (alive w (g_inc w o))).
+Proof.
+  intros I H. destruct (obj_facts _ o I H) as (x & Ex & O & _).
+  rewrite outcome_call. cbn [mcall]. rewrite Ex.
+  destruct (is_running_spec _ x _ I O) as (x1 & add & E & _). rewrite E. reflexivity.
+Qed.
+
+(* wait_procs([o], timeout=0) *)
+Lemma wait_procs_answer w o vis : Inv w -> has_obj w o = true -> 0 < obj_pid w o ->
+  (alive w (g_inc w o) = true -> outcome_of w (EC (WaitProcs o vis)) = Val (RBool false))
+  /\ (alive w (g_inc w o) = false -> owner w (obj_pid w o) = None ->
+      outcome_of w (EC (WaitProcs o vis)) = Val (RBool true)).
+Proof.
+  intros I H P. destruct (obj_facts _ o I H) as (x & Ex & O & _ & _ & Eop). rewrite Eop in *.
+  rewrite outcome_call. cbn [mcall]. rewrite Ex. unfold do_wait_procs.
+  pose proof (do_hash_ok w x _ O) as (O0 & _ & Ei0). destruct (do_hash x) as [x0 h0]. cbn [fst] in *.
+  assert (Ep0 : opid x0 = opid x) by (unfold ident in Ei0; congruence).
+  unfold do_wait. rewrite Ep0. destruct (Z.leb_spec (opid x) 0); [lia|].
+  rewrite kexists_view. rewrite owner_lookup.
+  assert (IR : forall y, obj_ok w y (g_inc w o) ->
+          exists y2 add, is_running (view_of w) y = (y2, Val (alive w (g_inc w o)), add)).
+  { intros y Oy. destruct (is_running_spec w y _ I Oy) as (y2 & add & E & _). eauto. }
+  destruct (oexit x0).
+  - destruct (IR x0 O0) as (y2 & add & ->). cbn [fst snd]. split; intros A; rewrite A; reflexivity.
+  - destruct (lookup (table w) (opid x)) as [k|] eqn:L.
+    + destruct vis; cbn [andb].
+      * cbn [fst snd]. split; [reflexivity|]. intros _ Ow. discriminate.
+      * destruct (IR (with_exit true x0) (obj_ok_with_exit w x0 _ true O0)) as (y2 & add & ->). cbn [fst snd].
+        split; [intros A; rewrite A; reflexivity|]. intros _ Ow. discriminate.
+    + rewrite andb_false_r.
+      destruct (IR (with_exit true x0) (obj_ok_with_exit w x0 _ true O0)) as (y2 & add & ->). cbn [fst snd].
+      split; intros A; rewrite A; reflexivity.
+Qed.
+
+(* a wait() on a PID the caller's namespace does not see returns None at once -- and changes no later answer *)
+Lemma wait_foreign_harmless h o o' :
+  wf_hist h = true -> has_obj (run h) o = true -> has_obj (run h) o' = true -> 0 < obj_pid (run h) o ->
+  (outcome_of (run h) (EC (Wait o false)) = Val RNone)
+  /\ outcome_of (next (run h) (EC (Wait o false))) (EC (IsRunning o'))
+     = Val (RBool (alive (run h) (g_inc (run h) o'))).
+Proof.
+  intros W H H' P. pose proof (run_inv h W) as I. set (w := run h) in *. split.
+  - destruct (obj_facts _ o I H) as (x & Ex & O & _ & _ & Eop). rewrite Eop in P.
+    rewrite outcome_call. cbn [mcall]. rewrite Ex. unfold do_wait.
+    destruct (oexit x); [reflexivity|]. destruct (Z.leb_spec (opid x) 0); [lia|]. reflexivity.
+  - pose proof (call_inv w (Wait o false) I) as I1.
+    assert (H1 : has_obj (next w (EC (Wait o false))) o' = true).
+    { apply (has_obj_len _ o' I1). pose proof (proj1 (has_obj_len w o' I) H').
+      destruct (ginc_prefix w (EC (Wait o false))) as [l E]. rewrite E, app_length. lia. }
+    rewrite (is_running_answer_w _ o' I1 H1).
+    rewrite g_inc_next by (apply (has_obj_len w o' I); auto).
+    unfold next. cbn [step]. rewrite cstep_alive. reflexivity.
+Qed.
+
 Lemma step_meets_spec h c : wf_hist h = true ->
   match spec_call (run h) c with
   | Some l => In (outcome_of (run h) (EC c), delivered (effects_of (run h) (EC c))) l
@@ -524,7 +579,7 @@ Lemma step_meets_spec h c : wf_hist h = true ->
   end.
 Proof.
   intros W. pose proof (run_inv h W) as I.
-  destruct c as [pid|pid|o|o s|o|o|o|o|o|a b|a b|o s|o|o| | |o| |g]; cbn [spec_call]; auto.
+  destruct c as [pid|pid|o|o s|o|o|o|o|o|a b|a b|o s|o|o| | |o vis| |g|o vis]; cbn [spec_call]; auto.
   - (* New *)
     rewrite nonset_effects by (intros; discriminate). left. f_equal.
     rewrite outcome_call. cbn [mcall]. unfold new_obj.
@@ -564,6 +619,16 @@ Proof.
       * specialize (Sn eq_refl eq_refl). destruct (valid_args (obj_pid (run h) o) s).
         -- destruct Sn as [-> [-> | ->]]; left; reflexivity.
         -- destruct Sn as [[-> | ->] ->]; [left|right; left]; reflexivity.
+  - (* WaitProcs *)
+    rewrite (no_identity_false _ o I), (inv_nodeny _ I). cbn [memz existsb negb]. rewrite !andb_true_r.
+    destruct (has_obj (run h) o) eqn:H; cbn [andb]; auto.
+    destruct (obj_pid_creation h o W H) as [Ep _]. rewrite <- Ep.
+    destruct (Z.ltb_spec 0 (obj_pid (run h) o)) as [P|P]; auto.
+    destruct (wait_procs_answer (run h) o vis I H P) as [Wa Wd].
+    rewrite nonset_effects by (intros; discriminate).
+    destruct (alive (run h) (g_inc (run h) o)) eqn:A.
+    + rewrite (Wa eq_refl). left; reflexivity.
+    + destruct (owner (run h) (obj_pid (run h) o)) eqn:Ow; auto. rewrite (Wd eq_refl eq_refl). left; reflexivity.
 Qed.
 
 (* ================================================================ the hypotheses are inhabited *)
